@@ -5,6 +5,8 @@ and every buffer: they hold for any motion or text object, present or future, be
 engine only enters through the range it produced.
 -/
 import Vicut.Model.Verbs
+import Vicut.Model.Motions
+import Vicut.Props.C09
 
 namespace Vicut.C08
 open Vicut
@@ -351,3 +353,133 @@ example : (mapRangeGs (caseGr .upper) 0 2 [['a'], ['é'], ['c']]) = [['A'], ['é
 example : rot13Char 'a' = 'n' ∧ rot13Char 'Z' = 'M' ∧ rot13Char 'é' = 'é' := by decide
 
 end Vicut.C08
+
+/-! # Simple motions feeding the operators
+`l` and `h` never cross or land on a line terminator, every position a simple motion produces lies inside
+the text, and therefore an operator applied to one gets a range `s ≤ e ≤ len`. -/
+namespace Vicut.Motions
+open Vicut
+
+/-- **`l`** (normal mode, not selecting): the position reached is at or after the start, inside the text,
+and no position stepped onto is a line terminator. -/
+theorem forward_stays_on_line (s : MS) (hn : s.selecting = false) (he : s.excl = true) (n t p : Nat) (ht : t ≤ s.max)
+    (h : forwardGo s n t = some p) :
+    t ≤ p ∧ p ≤ s.max ∧ ∀ i, t < i → i ≤ p → s.isNlAt i = false := by
+  induction n generalizing t with
+  | zero => simp [forwardGo] at h; subst h; exact ⟨Nat.le_refl _, ht, fun i h1 h2 => absurd h2 (by omega)⟩
+  | succ n ih =>
+    simp only [forwardGo, hn, he, Bool.not_false, Bool.true_and, Bool.false_and, Bool.false_eq_true, ↓reduceIte] at h
+    split at h
+    · exact absurd h (by simp)
+    · rename_i hnl
+      have hnl' : s.isNlAt (min (t + 1) s.max) = false := by simpa using hnl
+      obtain ⟨a, b, c⟩ := ih (min (t + 1) s.max) (Nat.min_le_right _ _) h
+      refine ⟨by omega, b, ?_⟩
+      intro i hi hip
+      by_cases hm : i = min (t + 1) s.max
+      · rw [hm]; exact hnl'
+      · by_cases hlt : t + 1 ≤ s.max
+        · have : min (t + 1) s.max = t + 1 := Nat.min_eq_left hlt
+          exact c i (by omega) hip
+        · have : min (t + 1) s.max = s.max := Nat.min_eq_right (by omega)
+          omega
+
+/-- **`h`**: the position reached is at or before the start and no position stepped onto is a terminator. -/
+theorem backward_stays_on_line (s : MS) (n t p : Nat) (h : backwardGo s n t = some p) :
+    p ≤ t ∧ ∀ i, p ≤ i → i < t → s.isNlAt i = false := by
+  induction n generalizing t with
+  | zero => simp [backwardGo] at h; subst h; exact ⟨Nat.le_refl _, fun i h1 h2 => absurd h2 (by omega)⟩
+  | succ n ih =>
+    simp only [backwardGo] at h
+    split at h
+    · exact absurd h (by simp)
+    · rename_i hnl
+      have hnl' : s.isNlAt (t - 1) = false := by simpa using hnl
+      obtain ⟨a, c⟩ := ih (t - 1) h
+      refine ⟨by omega, ?_⟩
+      intro i hi hit
+      by_cases hm : i = t - 1
+      · rw [hm]; exact hnl'
+      · exact c i hi (by omega)
+
+theorem firstWord_in_line (s : MS) (fuel i p : Nat) (h : firstWordGo s fuel i = some p) : i ≤ p ∧ p < s.max := by
+  induction fuel generalizing i with
+  | zero => simp [firstWordGo] at h
+  | succ f ih =>
+    simp only [firstWordGo] at h
+    split at h
+    · exact absurd h (by simp)
+    · rename_i hi
+      split at h
+      · simp at h; subst h; exact ⟨Nat.le_refl _, by omega⟩
+      · split at h
+        · exact absurd h (by simp)
+        · obtain ⟨a, b⟩ := ih (i + 1) h; exact ⟨by omega, b⟩
+
+/-- Start and end of the cursor line lie inside the text, around the cursor. -/
+theorem thisLine_bounds (s : MS) (hc : s.cur ≤ s.max) (hnl : C09.NlAlone s.gs) :
+    s.sol ≤ s.cur ∧ s.cur ≤ s.eol ∧ s.eol ≤ s.max := by
+  obtain ⟨a, b, hb, h1, h2, h3, _⟩ := C09.this_line_contains_cursor s.gs s.cur hc
+  have hcl : cursorLine s.lb = countNl (s.gs.take s.cur) := C09.cursorLine_eq s.lb hnl
+  have : Vicut.thisLine s.lb = some (a, b) := by
+    unfold Vicut.thisLine; rw [hcl]; exact hb
+  simp only [MS.sol, MS.eol, MS.thisLine, this, Option.getD_some, MS.max]
+  exact ⟨h1, h2, h3⟩
+
+/-- **Every position produced by `h l 0 ^ | ` and by `$` (count 1) lies inside the text.** -/
+theorem simple_motion_in_bounds (s : MS) (m : SMotion) (count : Nat) (app : Bool) (p : Nat)
+    (hc : s.cur ≤ s.max) (hnl : C09.NlAlone s.gs)
+    (hm : m = .forwardChar ∨ m = .backwardChar ∨ m = .bol ∨ m = .firstWord ∨ m = .toColumn ∨ (m = .eol ∧ count = 1))
+    (h : evalSimple s m count app = .on p) : p ≤ s.max := by
+  have hb := thisLine_bounds s hc hnl
+  rcases hm with rfl | rfl | rfl | rfl | rfl | ⟨rfl, rfl⟩
+  · simp only [evalSimple] at h
+    split at h
+    · rename_i q hq
+      cases h
+      -- bounded whatever the mode: every step is `min (t+1) max`
+      have : ∀ n t q, t ≤ s.max → forwardGo s n t = some q → q ≤ s.max := by
+        intro n
+        induction n with
+        | zero => intro t q ht hq; simp [forwardGo] at hq; omega
+        | succ n ih =>
+          intro t q ht hq
+          simp only [forwardGo] at hq
+          split at hq
+          · exact absurd hq (by simp)
+          · split at hq
+            · simp at hq; omega
+            · exact ih _ _ (Nat.min_le_right _ _) hq
+      exact this _ _ _ hc hq
+    · exact absurd h (by simp)
+  · simp only [evalSimple] at h
+    split at h
+    · rename_i q hq; cases h
+      have := (backward_stays_on_line s _ _ _ hq).1; omega
+    · exact absurd h (by simp)
+  · simp only [evalSimple] at h; cases h; omega
+  · simp only [evalSimple] at h
+    split at h
+    · rename_i q hq; cases h; have := (firstWord_in_line s _ _ _ hq).2; omega
+    · exact absurd h (by simp)
+  · simp only [evalSimple] at h; cases h; exact Nat.min_le_right _ _
+  · simp only [evalSimple, ↓reduceIte] at h
+    split at h
+    · split at h <;> (simp at h; omega)
+    · split at h <;> (simp at h; omega)
+
+/-- Hence an operator applied to one of these motions gets a range that `drain`/`slice` accept:
+`s ≤ e ≤ len` (here for the motions that yield `On p`). -/
+theorem operator_range_valid (s : MS) (p : Nat) (hp : p ≤ s.max) (hc : s.cur ≤ s.max) :
+    ∃ a b, rangeFromMotion s.lb (.on p) = some (a, b) ∧ a ≤ b ∧ b ≤ s.gs.length := by
+  refine ⟨(ordered s.cur p).1, (ordered s.cur p).2, rfl, ?_, ?_⟩
+  · unfold ordered; split <;> simp <;> omega
+  · unfold ordered; split <;> simp [MS.max] at * <;> omega
+
+/-! ## Non-vacuity -/
+example : evalSimple ⟨[['a'], ['b'], ['\n'], ['c']], 0, true, false, [false, false, true, false]⟩ .forwardChar 5 false = .null := by decide
+example : evalSimple ⟨[['a'], ['b'], ['\n'], ['c']], 0, true, false, [false, false, true, false]⟩ .forwardChar 1 false = .on 1 := by decide
+example : evalSimple ⟨[['a'], ['b'], ['\n'], ['c']], 0, true, false, [false, false, true, false]⟩ .eol 1 false = .on 1 := by decide
+example : evalSimple ⟨[['a'], ['b'], ['\n'], ['c']], 0, false, false, [false, false, true, false]⟩ .eol 1 true = .on 2 := by decide
+
+end Vicut.Motions
